@@ -103,6 +103,21 @@ func (d *Dictionary) Decode(dst [][]byte, src []byte, itemsCount uint64) ([][]by
 	if err != nil {
 		return nil, err
 	}
+	// The run-length pairs come from storage: validate them before expanding, so that corrupted
+	// bytes yield an error instead of an out-of-range index or an allocation of billions of items.
+	if len(d.tmp)%2 != 0 {
+		return nil, fmt.Errorf("unexpected odd number of run-length values: %d", len(d.tmp))
+	}
+	total := uint64(0)
+	for i := 0; i < len(d.tmp); i += 2 {
+		if uint64(d.tmp[i]) >= uint64(len(d.values)) {
+			return nil, fmt.Errorf("dictionary index %d out of range; dictionary has %d values", d.tmp[i], len(d.values))
+		}
+		total += uint64(d.tmp[i+1])
+		if total > itemsCount {
+			return nil, fmt.Errorf("unexpected item counts; got more than %d; want %d", total, itemsCount)
+		}
+	}
 	d.indices = decodeRLE(d.indices, d.tmp)
 	if uint64(len(d.indices)) != itemsCount {
 		return nil, fmt.Errorf("unexpected item counts; got %d; want %d", len(d.indices), itemsCount)
@@ -246,6 +261,11 @@ func (bpd *bitPackingDecoder) decode(dst []uint32) ([]uint32, error) {
 	bitsWidth, err := bpd.br.ReadBits(8)
 	if err != nil {
 		return nil, err
+	}
+	// A zero width would read no input per value, so a corrupted length could append up to
+	// 2^32 values from a handful of bytes; the encoder never writes a width outside 1..32.
+	if bitsWidth == 0 || bitsWidth > 32 {
+		return nil, fmt.Errorf("invalid bit width %d; want 1..32", bitsWidth)
 	}
 	for i := uint64(0); i < length; i++ {
 		value, err := bpd.br.ReadBits(int(bitsWidth))
